@@ -29,7 +29,8 @@ class Job:
     def __init__(self, name, harness, kind="proof", enforce=None, replace=(), loop_contracts=False,
                  unwind=None, unwindset=(), defines=(), flags=(), timeout=180, tier="quick", finding=None,
                  note="", no_std_checks=False, solver=None, object_bits=None, replay=None, expect_fail=(),
-                 search=None, props=None):
+                 search=None, props=None, mem_kb=None):
+        self.mem_kb = mem_kb        # per-job memory limit (default MEM_KB)
         self.search = search        # name of a kind='search' job run on failure to find a concrete input
         self.props = props          # restrict the job to these properties (default: the kernel's SERVES)
         self.name = name
@@ -69,9 +70,9 @@ class JobResult:
         self.warnings = []
 
 
-def _run(cmd, timeout, cwd, log):
+def _run(cmd, timeout, cwd, log, mem_kb=None):
     t0 = time.time()
-    sh = "ulimit -v %d; exec timeout -k 5 %d %s" % (MEM_KB, timeout, " ".join(_q(c) for c in cmd))
+    sh = "ulimit -v %d; exec timeout -k 5 %d %s" % (mem_kb or MEM_KB, timeout, " ".join(_q(c) for c in cmd))
     p = subprocess.run(["bash", "-c", sh], cwd=cwd, stdout=subprocess.PIPE, stderr=subprocess.PIPE)
     dt = time.time() - t0
     out = p.stdout.decode(errors="replace")
@@ -197,7 +198,7 @@ def run_job(cfile, job, workdir):
         cb += ["--sat-solver", "cadical"]   # default back end: CaDiCaL (MiniSat stalled for minutes on several small instances)
     cb += job.flags
     r.cmds.append(" ".join(cb))
-    rc, out, err, dt = _run(cb, job.timeout, workdir, log)
+    rc, out, err, dt = _run(cb, job.timeout, workdir, log, job.mem_kb)
     r.solver_s = dt
     r.time_s = time.time() - t0
     for f in (a, b):
